@@ -141,10 +141,66 @@ fn one_damage(run: &Run, s: &Subject, base_errors: &std::collections::BTreeMap<u
     crate::scratch::rm(&arch);
 }
 
+/// Scale: healthy archives with large blocks under default options -- a combined block that
+/// overruns the 20 MiB block size by one small file (21 files of 1 000 000 bytes), a file of more
+/// than one 20 MiB block, and 300 blocks of 64 bytes -- must validate silently, fully and quickly.
+fn large_healthy(run: &Run) {
+    for (label, o, files) in [
+        ("default options", cs::Opts::DEFAULT, (0..21).map(|i| (format!("/s{i:02}"), 1_000_000usize)).chain([("/big".to_string(), (21usize << 20) + 5)]).collect::<Vec<_>>()),
+        ("one block per file", cs::Opts { hunk: 100_000, block: 64, cap: 0 }, (0..300).map(|i| (format!("/f{i:03}"), 40usize)).collect::<Vec<_>>()),
+    ] {
+        let mut spec = crate::tree::Snapshot::new();
+        spec.insert("/".into(), crate::tree::Node::dir());
+        for (i, (name, size)) in files.iter().enumerate() {
+            let mut n = crate::tree::Node::file(Rng::for_case(run.seed, i as u64, 3100).bytes(*size));
+            n.mtime_s = 1_650_000_000 + i as i64;
+            spec.insert(name.clone(), n);
+        }
+        let mut w = World::with_spec("c09big", spec, GenParams::small(64, 16), run.seed);
+        run.eval();
+        let r = w.backup(o);
+        let replay = json!({"large_healthy": true, "label": label});
+        if !r.backup.as_ref().unwrap().clean() {
+            run.inconclusive(format!("large healthy archive ({label}): backup not clean: {}", r.backup.as_ref().unwrap().describe()));
+            continue;
+        }
+        let raw = w.raw(true);
+        run.count("large_healthy_archives", 1);
+        run.count("blocks_in_large_healthy_archives", raw.blocks.len() as u64);
+        if raw.blocks.values().any(|b| b.len.unwrap_or(0) > (20 << 20)) {
+            run.count("healthy_archives_with_a_block_above_the_block_size", 1);
+        }
+        for quick in [false, true] {
+            for workers in [0usize, 4] {
+                let v = cs::with_workers(workers, || cs::validate(cs::local(&w.arch), quick));
+                run.count("healthy_validations", 1);
+                if let Some(p) = &v.panic {
+                    run.violation(format!("validate-panic:{}", panic_site(p)), format!("large healthy archive ({label}): {p}"), replay.clone());
+                    return;
+                }
+                if !v.clean() {
+                    run.violation(
+                        format!("false-alarm-on-healthy-archive:{}", if quick { "quick" } else { "full" }),
+                        format!("large healthy archive ({label}; {} blocks, largest {} bytes): validate reported {}", raw.blocks.len(), raw.blocks.values().filter_map(|b| b.len).max().unwrap_or(0), v.describe()),
+                        replay.clone(),
+                    );
+                    return;
+                }
+            }
+        }
+    }
+}
+
 pub fn run(tier: Tier, replay: Option<Value>) -> i32 {
     let run = Run::new("C09", "fault_enumeration", tier, replay.clone());
     let healthy_replay = replay.as_ref().and_then(|r| r.get("healthy")).is_some();
-    if replay.is_none() || healthy_replay {
+    if replay.as_ref().and_then(|r| r.get("large_healthy")).is_some() {
+        large_healthy(&run);
+        return run.finish("replay", &[], None, &[]);
+    }
+    if replay.is_none() {
+        super::alongside(&run, "the large healthy archives", || large_healthy(&run), || run.par_cases(tier.pick(120, 5000), super::threads(), |c| healthy_history(&run, c)));
+    } else if healthy_replay {
         run.par_cases(tier.pick(120, 5000), super::threads(), |c| healthy_history(&run, c));
     }
     if !healthy_replay {
@@ -194,10 +250,10 @@ pub fn run(tier: Tier, replay: Option<Value>) -> i32 {
         }
     }
     let needs: &[(&str, u64)] = if replay.is_some() { &[] } else {
-        &[("healthy_validations", 100), ("healthy_states_with_interrupted_band", 3), ("damages_applied", 200), ("harmful_damages", 50), ("harmless_damages", 5)]
+        &[("healthy_validations", 100), ("healthy_states_with_interrupted_band", 3), ("damages_applied", 200), ("harmful_damages", 50), ("harmless_damages", 5), ("large_healthy_archives", 2), ("healthy_archives_with_a_block_above_the_block_size", 1)]
     };
     run.finish(
-        "(every third healthy history and every second damaged archive is validated on a 4-worker multi-thread runtime) healthy side: histories as in C02 (completed and interrupted-with-header backups, deletes, gcs; states with a head-less band directory skipped); after every archive-changing step full and quick validation must return Ok and report nothing. Damage side: archives with 2-4 bands (complete, interrupted in the middle, interrupted newest) sharing blocks; EVERY file except CONSERVE x {delete (not for BANDTAIL), truncate to 0, truncate to half, overwrite with seeded garbage} and 8 seeded bit flips per block; a damage is harmful when some version's restore by id fails, reports (more) errors or differs from its pre-damage result (interrupted versions with a header included; only the vanished or emptied last hunk of an interrupted band is exempt, because that state is exactly what an interruption leaves); every harmful damage must make full validation report >= 1 error, and every harmful deletion quick validation too. Distinct = (archive, damaged file, action) that is harmful.",
+        "two large healthy archives (default options: 21 files of 1 000 000 bytes, i.e. a combined block above the 20 MiB block size, plus a file of more than one block; 300 one-file blocks) validated fully and quickly on both runtime flavours; (every third healthy history and every second damaged archive is validated on a 4-worker multi-thread runtime) healthy side: histories as in C02 (completed and interrupted-with-header backups, deletes, gcs; states with a head-less band directory skipped); after every archive-changing step full and quick validation must return Ok and report nothing. Damage side: archives with 2-4 bands (complete, interrupted in the middle, interrupted newest) sharing blocks; EVERY file except CONSERVE x {delete (not for BANDTAIL), truncate to 0, truncate to half, overwrite with seeded garbage} and 8 seeded bit flips per block; a damage is harmful when some version's restore by id fails, reports (more) errors or differs from its pre-damage result (interrupted versions with a header included; only the vanished or emptied last hunk of an interrupted band is exempt, because that state is exactly what an interruption leaves); every harmful damage must make full validation report >= 1 error, and every harmful deletion quick validation too. Distinct = (archive, damaged file, action) that is harmful.",
         &["the last hunk of an incomplete band can vanish without any format-level trace: exempt", "E1 walker decides 'restores exactly'"],
         Some(true),
         needs,
